@@ -14,7 +14,7 @@
    Neumann-normal terms (normals=...) are outside the property and the model. *)
 From Coq Require Import List ZArith Bool Arith Reals Lia Lra.
 Import ListNotations.
-From FV.C15 Require Import Model Proofs.
+From FV.C15 Require Import Model Proofs Span.
 Local Open Scope R_scope.
 
 (* 1a. Constants are mapped to zero by every returned matrix: every mesh,
@@ -83,6 +83,38 @@ Theorem C15_moment_exact_any_row :
 Proof.
   intros rows f g i ns Hn Hd H a. rewrite spmv_grad_triples, Hn. simpl.
   now apply moment_row_exact.
+Qed.
+
+(* 2c. The premise [det M_i <> 0] follows from the property's precondition
+   "the vertex neighbourhood spans space": positive weights (every kernel and
+   every positive volume family) and three stored offsets with non-zero
+   determinant make the moment matrix regular. *)
+Theorem C15_moment_regular_if_spanning :
+  forall ns : list (nbr R),
+    (forall e, In e ns -> 0 < nb_w e) ->
+    (exists e1 e2 e3, In e1 ns /\ In e2 ns /\ In e3 ns /\
+                      det33 ROps (nb_off e1, nb_off e2, nb_off e3) <> 0) ->
+    det33 ROps (moment ROps ns) <> 0.
+Proof. exact moment_regular_if_spanning. Qed.
+
+(* 2d. Exactness stated with the property's own precondition. *)
+Theorem C15_moment_exact_spanning :
+  forall (o : opts) (kern : V3 R -> R) (m : mesh R) (evol : list R) As rows inc,
+    o_moment o = true ->
+    spatial_gradient_adjacency_matrices ROps o kern m evol = Some As ->
+    mesh_rows ROps o kern m evol = Some rows ->
+    incidence m = Some inc ->
+    let P := vertex_positions ROps (o_mode o) m inc in
+    forall i ns, nth_error rows i = Some ns ->
+    (forall e, In e ns -> 0 < nb_w e) ->
+    (exists e1 e2 e3, In e1 ns /\ In e2 ns /\ In e3 ns /\
+                      det33 ROps (nb_off e1, nb_off e2, nb_off e3) <> 0) ->
+    forall (g : V3 R) (c : R) (a : nat), (a < 3)%nat ->
+      spmv ROps (nth a As []) (affine g c P) i = comp a g.
+Proof.
+  intros o kern m evol As rows inc Hmm HA Hrows Hinc P i ns Hns Hw Hspan.
+  apply (C15_moment_exact o kern m evol As rows inc Hmm HA Hrows Hinc i ns Hns).
+  now apply moment_regular_if_spanning.
 Qed.
 
 (* 3. The convenience functions calculate_{nodal,elemental}_spatial_gradients
@@ -163,5 +195,6 @@ Proof.
 Qed.
 
 Print Assumptions C15_grad_const_zero.
+Print Assumptions C15_moment_exact_spanning.
 Print Assumptions C15_moment_exact.
 Print Assumptions C15_convenience_affine_exact.
